@@ -42,7 +42,7 @@ func runC03(env *lib.Env, rep *lib.Report) {
 		seeds = append(seeds, "t1x8+t2t3", "t1x30", "t1x8+t2t3-crashed", "catalog-split")
 	}
 	// (the refused INSERT only ever precedes the statement that is cut: it uses up a row id without a log record)
-	alpha := alphaOpt{Tables: []string{"t1", "t2"}, Inserts: []int{1, 4, 9}, BigInsert: true, Updates: true, Deletes: true, FailingInsert: true}
+	alpha := alphaOpt{Tables: []string{"t1", "t2"}, Inserts: []int{1, 4, 9}, BigInsert: true, Updates: true, Deletes: true, FailingInsert: true, HeldUpdate: true}
 	sfx := alphaOpt{Tables: []string{"t1", "t2"}, Inserts: []int{1, 9}}
 	if env.Thorough() {
 		sfx = alpha
